@@ -14,8 +14,8 @@ from .C04 import json_val, meta_key
 ID = "C12"
 LEVEL = "exploration"
 RULE = (
-    "Exhaustive: all tree shapes over n<=4 decaying particles with multiplicities <=3 (n=5 with multiplicities <=2; thorough: "
-    "n=5 with <=3 and n=6 with <=2; with and without a particle re-occurring below a second parent) x every permutation of "
+    "Exhaustive: all tree shapes over n<=5 decaying particles with multiplicities <=3 (thorough: "
+    "also n=6 with <=2; n<=4 with and without a particle re-occurring below a second parent) x every permutation of "
     "the sub-decay mapping (<=24; 20 evenly spaced permutations beyond) x every subset of the decaying particles (mother "
     "excluded) as stable set. Hypothesis: chains with <=12 decaying particles, particles re-occurring at several depths, "
     "bf in [1e-6,1], metadata, stable sets passed as list/tuple/set. Oracle: recursive walk (leaves multiset, product of bf "
@@ -137,7 +137,7 @@ def units(tier, seed):
     for k in range(2):
         u.append({"name": f"enum-n4-{k}", "kind": "enum", "n": 4, "mult": 3, "second": True, "slice": [k, 2]})
     for k in range(4):
-        u.append({"name": f"enum-n5-{k}", "kind": "enum", "n": 5, "mult": 2 if quick else 3, "second": False, "slice": [k, 4]})
+        u.append({"name": f"enum-n5-{k}", "kind": "enum", "n": 5, "mult": 3, "second": False, "slice": [k, 4]})
     if not quick:
         for k in range(8):
             u.append({"name": f"enum-n6-{k}", "kind": "enum", "n": 6, "mult": 2, "second": False, "slice": [k, 8]})
